@@ -71,6 +71,9 @@ fn read_dir_recursive(root_js_path: &Path) -> LocationFreeDiagnosticResult<Vec<P
         )
     })?;
 
+    #[cfg(isographlabs_isograph_verif)]
+    crate::verif_hooks::order_paths(&mut paths);
+
     Ok(paths)
 }
 
